@@ -339,6 +339,10 @@ class Session:
         out = []
         suffix = ("/transient" if self.transient and self.kind != "status" else "") + ("/tall-frame" if self._tall() else "")
         tag = "%s/%s" % (self.kind, ev[0])
+        if self.kind == "progress" and self._tall():
+            # Progress has no vertical overflow handling at all: whatever event comes next shows it, so the
+            # event is not part of the finding key (one defect, few keys)
+            tag = "progress/any-event"
         scr = self.screen
         cands = self.candidates if (self.started and self.candidates) else [self.shown if self.started else None]
         self.candidates = None
